@@ -17,6 +17,7 @@ Not decided: linearisation of a removal against operations already in flight."""
 from rules.core import afc, pat
 
 CRATES = ["aranya_fast_channels"]
+THOROUGH_CONFIGS = ["cas"]   # thorough tier: the same rules on the cas_mutex build
 
 
 def run(F, rep, tier):
